@@ -17,7 +17,11 @@ case $FLAVOR in
   plain) SAN=""; HSAN="" ;;
   *) echo "unknown flavor $FLAVOR" >&2; exit 2 ;;
 esac
-CFLAGS_LIB="$SAN -O1 -g -DCARES_VERIF_SIM"
+# -ftrivial-auto-var-init=pattern: uninitialised stack variables get a fixed poison pattern, so a read of one is
+# deterministic (replayable) and usually loud under ASan instead of depending on stack garbage
+CFLAGS_LIB="$SAN -O1 -g -DCARES_VERIF_SIM -ftrivial-auto-var-init=pattern"
+# the plain flavour is run under valgrind memcheck, which must see genuinely uninitialised memory
+[ $FLAVOR = plain ] && CFLAGS_LIB="-O1 -g -DCARES_VERIF_SIM"
 
 if [ ! -f $B/build.ninja ] || [ "$(cat $B/.repo 2>/dev/null)" != "$REPO" ]; then
   rm -rf $B
@@ -71,6 +75,7 @@ newer=0
 for o in $objs $OUT/libcares_sim.a; do [ $o -nt $OUT/simbin ] && newer=1; done
 if [ ! -f $OUT/simbin ] || [ $newer = 1 ]; then
   clang++ $SAN -g $objs $OUT/libcares_sim.a -lpthread -o $OUT/simbin.tmp || { echo "SIM-INFRA: link failed" >&2; exit 2; }
+  [ $FLAVOR = plain ] && strip --strip-debug $OUT/simbin.tmp
   mv $OUT/simbin.tmp $OUT/simbin
 fi
 echo $OUT/simbin
